@@ -364,8 +364,9 @@ def _unit_case(rng, kcls, wcls, unit):
     covariances of order unit**2 (1e-8 .. 1e-15, or 1e6 .. 1e12), box sides and ramp knots of order unit."""
     if wcls == "pers_nat" and unit < 1e-5:
         wcls = "ramp"                       # p ** n would push every pixel under the absolute tolerance
-    if wcls == "user" and unit > 1:
-        wcls = "ramp"                       # birth ** 2 of order 1e12 is outside the certificate's absolute 1e-9
+    if wcls in ("user", "pers_nat", "pers_real") and unit > 1:
+        wcls = "ramp"                       # weights of order unit (persistence) or unit**2 (user) put the pixels far above 1:
+                                            # outside the certificate's absolute 1e-9 (seen in the thorough tier at unit 2^20)
     res = rng.choice([(2, 2), (2, 3), (3, 2)])
     base = _case(rng, kcls, wcls, rng.choice(["inside", "mixed", "border"]), res, rng.randint(1, 2), True,
                  rng.random() < 0.6)
